@@ -814,6 +814,61 @@ def wrap_arm_bodies(toks, log):
     return toks
 
 
+def desugar_get_or_insert_with(toks, log):
+    """R19c: a statement `PLACE.get_or_insert_with(|| EXPR);` (result unused; this vstd has no specification for it) is written as the definition std gives it:
+    `if PLACE.is_none() { PLACE = Some(EXPR); }`. Any other use (the returned reference is used, a closure with parameters) is left alone and stays outside the subset."""
+    toks = list(toks)
+    k = 0
+    while k < len(toks):
+        t = toks[k]
+        if not (t.kind == 'ident' and t.text == 'get_or_insert_with'):
+            k += 1
+            continue
+        dot = _prev_sig(toks, k)
+        op = _next_sig(toks, k)
+        if dot is None or op is None or not _is(toks[dot], 'punct', '.') or not _is(toks[op], 'punct', '('):
+            k += 1
+            continue
+        cl = match_close(toks, op)
+        semi = _next_sig(toks, cl)
+        b1 = _next_sig(toks, op)
+        b2 = _next_sig(toks, b1) if b1 is not None else None
+        if semi is None or not _is(toks[semi], 'punct', ';') or b1 is None or b2 is None or not (_is(toks[b1], 'punct', '|') and _is(toks[b2], 'punct', '|')):
+            k += 1
+            continue
+        # receiver: back to the start of the statement
+        j = dot - 1
+        d = 0
+        start = None
+        while j >= 0:
+            u = toks[j]
+            if u.kind == 'punct' and u.text in ')]}':
+                d += 1
+            elif u.kind == 'punct' and u.text in '([{':
+                if d == 0:
+                    start = j + 1
+                    break
+                d -= 1
+            elif d == 0 and u.kind == 'punct' and u.text == ';':
+                start = j + 1
+                break
+            j -= 1
+        if start is None:
+            k += 1
+            continue
+        recv = text(toks[start:dot]).strip()
+        if not recv or not re.match(r'^[A-Za-z_][A-Za-z0-9_\.\s]*$', recv):
+            k += 1
+            continue
+        expr = text(toks[b2 + 1:cl]).strip()
+        new = ' if %s.is_none() { %s = Some(%s); }' % (recv, recv, expr)
+        log.append(('R19c', '`%s.get_or_insert_with(|| ..);` written out as `if ..is_none() { .. = Some(..); }`' % recv, toks[k].line))
+        toks = toks[:start] + [Tok('subst', new, toks[start].pos, toks[start].line)] + toks[semi + 1:]
+        toks = relex(toks)
+        k = 0
+    return toks
+
+
 def desugar_str_match(toks, log):
     """R39: `match SCRUT { "a" => {A}, "b" => {B}, _ => {D} }` whose patterns are all string literals (or `_`) becomes
     `if SCRUT == "a" {A} else if SCRUT == "b" {B} else {D}` -- the definition of matching a `&str` against literal patterns, first match wins
